@@ -115,7 +115,8 @@ structure UpdR (r : Nat) (s t : State) : Prop where
   mr : ∀ mc', t.memos r = some mc' → s.memos r = some mc' ∨ s.cur ≤ mc'.va
 
 theorem obsOk_upd {P idOf r s t m} (U : Upd r s t) (R : UpdR r s t) (hI : Inv P idOf s) (ok : ObsOk s m)
-    (hso : SOK s m → ∀ o, o ∈ m.obs → o.out = false → atR r o.dep → depInfo t o.dep = depInfo s o.dep)
+    (hso : SOK s m → ∀ o, o ∈ m.obs → o.out = false → atR r o.dep →
+      ∀ x, depInfo s o.dep = some x → ∃ x', depInfo t o.dep = some x' ∧ x'.ca ≤ x.ca)
     (hat : ∀ o, o ∈ m.obs → o.out = false → atR r o.dep → ∀ L, (L = m.dur ∨ (L = 3 ∧ o.recd = false)) →
       ObsAt s m.va L o → ObsAt t m.va L o) : ObsOk t m := by
   have tr : ∀ o, o ∈ m.obs → o.out = false → ∀ L, (L = m.dur ∨ (L = 3 ∧ o.recd = false)) →
@@ -129,12 +130,11 @@ theorem obsOk_upd {P idOf r s t m} (U : Upd r s t) (R : UpdR r s t) (hI : Inv P 
   · intro o ho hout; exact tr o ho hout _ (Or.inl rfl) (ok.iv o ho hout)
   · intro hs o ho hout
     have hs' := (U.sokIff m).mp hs
-    have e : depInfo t o.dep = depInfo s o.dep := by
-      by_cases hd : atR r o.dep
-      · exact hso hs' o ho hout hd
-      · exact U.depInfo_off hd
-    rw [e]
-    exact ok.kaca hs' o ho hout
+    obtain ⟨x, hx, hc⟩ := ok.kaca hs' o ho hout
+    by_cases hd : atR r o.dep
+    · obtain ⟨x', hx', hc'⟩ := hso hs' o ho hout hd x hx
+      exact ⟨x', hx', Nat.le_trans hc' hc⟩
+    · exact ⟨x, by rw [U.depInfo_off hd]; exact hx, hc⟩
   · rw [U.lcEq]; exact ok.i4
   · intro o q' ho hout hd
     obtain ⟨m', hm', h⟩ := ok.i5q o q' ho hout hd
@@ -210,9 +210,8 @@ theorem tieOk_upd {P : Prog} {idOf : Nat → Nat} {r s t q m R} (U : Upd r s t) 
     cases hsp : R.sp with
     | some w =>
       rw [hsp] at h5
-      obtain ⟨A, hA, g1, g2, g3, g4, g5, g6, g7, g8⟩ := h5
-      exact ⟨A, by rw [hsm]; exact hA, g1, g2, g3, g4, by rw [e5]; exact g5, preAt_upd U T hR g4 g6, g7,
-        by rw [U.wlog]; exact g8⟩
+      obtain ⟨A, hA, g1, g2, g3, g4, g5, g6, g7⟩ := h5
+      exact ⟨A, by rw [hsm]; exact hA, g1, g2, g3, g4, by rw [e5]; exact g5, preAt_upd U T hR g4 g6, g7⟩
     | none =>
       rw [hsp] at h5
       obtain ⟨g1, g2⟩ := h5
@@ -225,7 +224,8 @@ theorem tieOk_upd {P : Prog} {idOf : Nat → Nat} {r s t q m R} (U : Upd r s t) 
 
 theorem nodeOk_upd {P idOf r s t q m} (U : Upd r s t) (R : UpdR r s t) (hI : Inv P idOf s)
     (ok : NodeOk P idOf s q m)
-    (hS : memoSok s r → ∀ d, atR r d → depInfo t d = depInfo s d ∧ (sokDep s d → sokDep t d))
+    (hS : memoSok s r → ∀ d, atR r d →
+      (∀ x, depInfo s d = some x → ∃ x', depInfo t d = some x' ∧ x'.ca ≤ x.ca) ∧ (sokDep s d → sokDep t d))
     (T : ObsTr r s t m)
     (hrep : ¬ Busy t q → ¬ Busy s q ∧ (s.slots q = none → t.slots q = none) ∧
       (∀ sl, s.slots q = some sl → ∃ sl', t.slots q = some sl' ∧ SlotEq sl sl') ∧ t.smemos q = s.smemos q) :
@@ -237,7 +237,7 @@ theorem nodeOk_upd {P idOf r s t q m} (U : Upd r s t) (R : UpdR r s t) (hI : Inv
     · rw [e] at hk; exact hk
     · rw [e] at hk; exact hk.1
     · rw [e] at hk; exact hk.1
-  refine ⟨?_, ok.origin, ?_, ok.rank, ?_, ?_, ok.hd, ?_, ok.hsrc, ok.outedge, ok.never, ?_⟩
+  refine ⟨?_, ok.origin, ?_, ok.rank, ?_, ?_, ok.hd, ?_, ok.hsrc, ok.outedge, ok.never, ?_, ok.shape⟩
   rotate_left 3
   · intro o c ho hout hd
     obtain ⟨mc, hmc⟩ := ok.hmemo o c ho hout hd
@@ -267,7 +267,10 @@ theorem nodeOk_upd {P idOf r s t q m} (U : Upd r s t) (R : UpdR r s t) (hI : Inv
     refine ⟨R0, h1, h2, h3, h4, ?_⟩
     intro hnb
     obtain ⟨a, b, c, d⟩ := hrep hnb
-    exact tieOk_upd U T h1 b c d (h5 a)
+    refine ⟨tieOk_upd U T h1 b c d (h5 a).1, ?_⟩
+    have ha := (h5 a).2
+    unfold AOrd at ha ⊢
+    rw [d, U.wlog]; exact ha
   · rcases ok.m4 with h | ⟨o, ho, hout, h⟩
     · exact Or.inl h
     · refine Or.inr ⟨o, ho, hout, ?_⟩
@@ -300,7 +303,8 @@ theorem specOk_upd {P idOf r s t c sm} (U : Upd r s t) (R : UpdR r s t) (hI : In
 /-- The invariant after a change confined to the records of `r`: the caller provides the clauses
     for the records of `r` in the new state and the observer obligations. -/
 theorem inv_upd {P idOf r s t} (hI : Inv P idOf s) (U : Upd r s t) (R : UpdR r s t) (hpn : t.panic = none)
-    (hS : memoSok s r → ∀ d, atR r d → depInfo t d = depInfo s d ∧ (sokDep s d → sokDep t d))
+    (hS : memoSok s r → ∀ d, atR r d →
+      (∀ x, depInfo s d = some x → ∃ x', depInfo t d = some x' ∧ x'.ca ≤ x.ca) ∧ (sokDep s d → sokDep t d))
     (hT : ∀ q m, q ≠ r → s.memos q = some m → ObsTr r s t m)
     (hnode : ∀ m, t.memos r = some m → NodeOk P idOf t r m)
     (hnonode : t.memos r = none → ¬ Busy t r → t.slots r = none ∧ t.smemos r = none)
